@@ -353,6 +353,67 @@ KEYGLUE = [
     (r"^Some \( self \. force_destroy \( self \. resolve_direct \( entity \) \? \) \)$", "returnSomeForceDestroyResolveDirect", None),
 ]
 
+WITHCAP = [
+    (r"^num_assert_leq ! \(.*\) ;$", "numAssert", None),
+    (r'^if capacity > MAX_DATA_CAPACITY as usize \{ panic ! \( "capacity may not exceed \{\}" , MAX_DATA_CAPACITY \) ; \}$', "panicIfTooLarge", None),
+    (r"^let mut (?P<slots>\w+) : DataPtr < Slot > = DataPtr :: with_capacity \( capacity \) ;$", "allocSlots", None),
+    (r"^let (?P<raw_data>\w+) = unsafe \{ slots \. raw_data \( capacity \) \} ;$", "rawData", None),
+    (r"^let (?P<free_head>\w+) = Slot :: populate_free_list \( TrimmedIndex :: zero \( \) , raw_data \) ;$", "populateFromZero", None),
+    (r"^Self \{ .* \}$", "returnSelfLiteral", None),
+]
+
+WITHCAP_FIELDS = [
+    (r"^version : ArchetypeVersion :: start \( \)$", "versionStart", None),
+    (r"^len : 0$", "lenZero", None),
+    (r"^capacity( : capacity)?$", "capacityParam", None),
+    (r"^free_head( : free_head)?$", "freeHeadLocal", None),
+    (r"^slots( : slots)?$", "slotsLocal", None),
+    (r"^entities : DataPtr :: with_capacity \( capacity \)$", "entitiesAlloc", None),
+    (r"^# \( d ~ I : RefCell :: new \( DataPtr :: with_capacity \( capacity \) \) , \) \*$", "columnsAlloc", None),
+    (r"^" + EVENTS + r"created : Vec :: new \( \)$", "createdNew", None),
+    (r"^" + EVENTS + r"destroyed : Vec :: new \( \)$", "destroyedNew", None),
+]
+
+CLEAR = [
+    (r"^self \. created \. clear \( \) ;$", "clearCreated", None),
+    (r"^self \. destroyed \. clear \( \) ;$", "clearDestroyed", None),
+]
+
+ITER_NEXT = [
+    (r"^if self \. remaining == 0 \{ return None ; \}$", "ifExhaustedReturnNone", None),
+    (r"^let (?P<result>\w+) = \( & \* self \. ptr_entity , # \( & (mut )?\* self \. ptr_d ~ I , \) \* \) ;$", "bindResult", None),
+    (r"^self \. ptr_entity = self \. ptr_entity \. offset \( 1 \) ;$", "advanceEntity", None),
+    (r"^# \( self \. ptr_d ~ I = self \. ptr_d ~ I \. offset \( 1 \) ; \) \*$", "advanceColumns", None),
+    (r"^self \. remaining -= 1 ;$", "decRemaining", None),
+    (r"^Some \( result \)$", "returnSomeResult", None),
+]
+
+ITER_FIELDS = [
+    (r"^remaining : self \. len$", "remainingLen", None),
+    (r"^ptr_entity : self \. entities \. ptr_data \( \)$", "ptrEntityStart", None),
+    (r"^# \( ptr_d ~ I : self \. d ~ I \. get_mut \( \) \. ptr_data \( \) , \) \*$", "ptrColumnsStart", None),
+    (r"^phantom : PhantomData$", "phantom", None),
+]
+
+
+def impl_fn_names(toks, at):
+    """names of the fns defined directly in the impl block whose header contains position `at`."""
+    j = at
+    while toks[j][1] != "{":
+        j += 1
+    e = block_end(toks, j)
+    names, k, depth = [], j + 1, 0
+    while k < e - 1:
+        t = toks[k][1]
+        if t in OPEN:
+            depth += 1
+        elif t in OPEN.values():
+            depth -= 1
+        elif t == "fn" and depth == 0:
+            names.append(toks[k + 1][1])
+        k += 1
+    return names
+
 SLOT = [
     DBG,
     (r"^self \. index = SlotIndex :: new_data \( p0 \) ;$", "indexNewData", None),
@@ -478,6 +539,55 @@ def extract_steps():
                 rows = [("unknown", f"NOT RECOGNISED: {ex}")]
             kind = "Entity<A>" if pre == "ent" else "EntityDirect<A>"
             parts.append(lean_list(pre + suffix, "WStep", rows, f"src/archetype/storage.rs `StorageCanResolve<{kind}>::{fn}`, statements in source order"))
+    # --- Archetype::iter / iter_mut: constructor literals (storage.rs) and the two `next` bodies (iter.rs)
+    try:
+        itr = tokenize(read("src/archetype/iter.rs"))
+    except OSError as ex:
+        itr = []
+    for fn, macro_var, pre in (("iter", "iter", "iter"), ("iter_mut", "iter_mut", "iterMut")):
+        try:
+            params, lo, hi = find_fn(sto, fn)
+            stmts = split_stmts(toks_of(sto, lo, hi))
+            lit = [st for st in stmts if st[:2] == ["$", macro_var] and st[2:3] == ["{"]]
+            if len(stmts) == 1 and len(lit) == 1:
+                frows = classify(split_fields(lit[0][3:-1]), ITER_FIELDS)
+            else:
+                frows = [("unknown", " ".join(st)) for st in stmts] or [("unknown", "empty body")]
+        except (ExtractError, IndexError) as ex:
+            frows = [("unknown", f"NOT RECOGNISED: {ex}")]
+        parts.append(lean_list(pre + "Fields", "IField", frows, f"src/archetype/storage.rs `StorageN::{fn}`: the field initialisers of the `${macro_var} {{ … }}` literal it returns"))
+        try:
+            at = find_seq(itr, ["Iterator", "for", "$", macro_var])
+            names = impl_fn_names(itr, at)
+            params, lo, hi = find_fn(itr, "next", at)
+            rows = classify(split_stmts(toks_of(itr, lo, hi)), ITER_NEXT)
+        except (ExtractError, IndexError) as ex:
+            rows = [("unknown", f"NOT RECOGNISED: {ex}")]
+            names = ["NOT RECOGNISED"]
+        parts.append(lean_list(pre + "NextSteps", "IStep", rows, f"src/archetype/iter.rs `impl Iterator for ${macro_var}`: statements of `next`, in source order"))
+        parts.append(f"/-- … and the names of ALL methods that impl block defines -/\ndef {pre}ImplMethods : List String := [" + ", ".join('"%s"' % n for n in names) + "]")
+    # --- with_capacity (statements + literal) and clear_events
+    try:
+        params, lo, hi = find_fn(sto, "with_capacity")
+        names = param_names(params)
+        stmts = split_stmts(toks_of(sto, lo, hi))
+        rows = classify(stmts, WITHCAP, {nm: "capacity" for nm in names})
+        ren = classify.last_rename
+        lit = [st for st in stmts if st and st[0] == "Self"]
+        frows = classify(split_fields(lit[0][2:-1]), WITHCAP_FIELDS, ren) if len(lit) == 1 else [("unknown", "expected exactly one `Self { … }` literal")]
+        if len(names) != 1:
+            rows.append(("unknown", f"unexpected parameter list ({', '.join(names)})"))
+    except (ExtractError, IndexError) as ex:
+        rows = [("unknown", f"NOT RECOGNISED: {ex}")]
+        frows = [("unknown", f"NOT RECOGNISED: {ex}")]
+    parts.append(lean_list("withCapacitySteps", "NStep", rows, "src/archetype/storage.rs `StorageN::with_capacity`, statements in source order"))
+    parts.append(lean_list("withCapacityFields", "NField", frows, "… and the field initialisers of the `Self { … }` literal it returns"))
+    try:
+        params, lo, hi = find_fn(sto, "clear_events")
+        rows = classify(split_stmts(toks_of(sto, lo, hi)), CLEAR)
+    except (ExtractError, IndexError) as ex:
+        rows = [("unknown", f"NOT RECOGNISED: {ex}")]
+    parts.append(lean_list("clearEventsSteps", "EStep", rows, "src/archetype/storage.rs `StorageN::clear_events`, statements in source order"))
     # --- Clone / Drop impls of the storage
     try:
         at = find_seq(sto, ["Clone", "for", "$", "name"])
@@ -510,7 +620,7 @@ def extract_steps():
     head = ("/- GENERATED by tools/extract.py (tools/extract_steps.py) from /repo/src/archetype/{storage.rs, slot.rs} on every run.\n"
             "   Do not edit.  The statements of the mutating primitives, classified and listed in source order; meaning:\n"
             "   Gecs/Model/Steps.lean; tie theorems: Gecs/Lemmas/GenSteps.lean. -/\n"
-            "import Gecs.Model.Steps\nimport Gecs.Model.ResolveSteps\nimport Gecs.Model.CloneSteps\nimport Gecs.Model.PushSteps\nimport Gecs.Model.KeySteps\n\nnamespace Gecs.Gen\n\n")
+            "import Gecs.Model.Steps\nimport Gecs.Model.ResolveSteps\nimport Gecs.Model.CloneSteps\nimport Gecs.Model.PushSteps\nimport Gecs.Model.KeySteps\nimport Gecs.Model.InitSteps\nimport Gecs.Model.IterSteps\n\nnamespace Gecs.Gen\n\n")
     return head + "\n\n".join(parts) + "\n\nend Gecs.Gen\n"
 
 
